@@ -1,6 +1,7 @@
 package syncer
 
 import (
+	"os"
 	"context"
 	"encoding/json"
 	"fmt"
@@ -52,6 +53,11 @@ type c18Scenario struct {
 	Filter bool    `json:"filter"`
 	Preempt bool     `json:"preempt,omitempty"` // wake-up statements of syncer/bisync.go are preemption points
 	Plan    []string `json:"plan,omitempty"`    // "<file:line>#<occurrence>" points at which the running goroutine is held back
+	// snapshot lane: the unit under test is a snapshot entry (key Unit.Keys[0]) replayed by the
+	// start sequence's full sync; HashTag = replay.replaceHashTag, Restore = RESTORE path
+	Snap    bool `json:"snap,omitempty"`
+	HashTag bool `json:"hash_tag,omitempty"`
+	Restore bool `json:"restore,omitempty"`
 }
 
 var c18KeyPool = []string{"{t}x", "y{t}", "{t}{u}", "{}{t}", "{{t}}", "}{t}", "plain", "{u}z", "{t", "t}{"}
@@ -325,6 +331,139 @@ func c18ExecPlan(t *testing.T, scn c18Scenario) (res mc.Result, seen, hit []stri
 	return res, seen, hit
 }
 
+// c18SnapExec: a snapshot with three string keys is replayed through the real start sequence
+// (SendRdb in bidirectional mode) into the cluster double. Every transaction the cluster
+// receives must address one slot by the reference, go to that slot's owner and succeed, and
+// afterwards every snapshot key must be held - under the name the configuration asks for - by
+// the node that owns that name's slot.
+func c18SnapExec(t *testing.T, scn c18Scenario) mc.Result {
+	var res mc.Result
+	msg := bubble(t, func() {
+		biEnvReset()
+		cl := clusterd.New(clusterAddrs, clusterd.EvenLayout(len(clusterAddrs)))
+		rc := clusterCfg()
+		nodeOf := func(key string) *redisd.Server { return cl.Nodes[cl.Owner(ref.HashSlotS(key))] }
+		var keys []ref.RDBKey
+		names := append([]string{"first"}, scn.Unit.Keys...)
+		for i, k := range names {
+			keys = append(keys, ref.RDBKey{DB: 0, Key: []byte(k), Val: &ref.RValue{Type: 's', Str: []byte(fmt.Sprintf("v%d", i))}, Enc: ref.RDBEnc{Kind: "raw"}, Idle: -1, Freq: -1})
+		}
+		g, err := ref.GenRDB(ref.RDBFileOpt{Version: 11, Aux: true}, keys)
+		if err != nil {
+			res = mc.Result{Verdict: "machinery", Clause: "rdb generator: " + err.Error()}
+			return
+		}
+		for _, gv := range g.Values {
+			for i, k := range names {
+				if k == string(gv.Key) {
+					for _, n := range cl.Nodes {
+						n.RegisterRestorable(gv.Body, &redisd.Value{T: 's', Str: []byte(fmt.Sprintf("v%d", i))})
+					}
+				}
+			}
+		}
+		biBootRDB = g.File
+		biBootCfgHook = func(c *RedisOutputConfig) {
+			c.ReplaceHashTag = scn.HashTag
+			if scn.Restore {
+				c.MaxProtoBulkLen = 512 * 1024 * 1024
+			}
+		}
+		boot := biBootWith(scn.Cfg, rc, "src", aofRunID, aofS0, true, nodeOf)
+		glog := cl.GlobalLog()
+		describe := func() map[string]interface{} {
+			var lines []string
+			for _, r := range glog {
+				if r.Name() == "cluster" || r.Name() == "ping" || r.Name() == "hgetall" || r.Name() == "exists" && len(r.Argv) > 1 && isBisyncKey(r.Argv[1]) {
+					continue
+				}
+				if len(r.Argv) > 1 && isBisyncKey(r.Argv[1]) && r.Txn == 0 {
+					continue
+				}
+				lines = append(lines, fmt.Sprintf("n%d %s -> %s", r.Node, maskVolatile(r.String()), r.Reply))
+			}
+			return map[string]interface{}{"log": lines, "boot_error": fmt.Sprint(boot.err), "snapshot_keys": names, "replace_hash_tag": scn.HashTag}
+		}
+		shape := fmt.Sprintf("snap:%s", scn.Cfg.Mode)
+		for _, n := range cl.Nodes {
+			if len(n.MachineryErrors) > 0 {
+				res = mc.Result{Verdict: "machinery", Clause: "double: " + strings.Join(n.MachineryErrors, "; ")}
+				return
+			}
+		}
+		type blk struct {
+			node int
+			slot int
+			exec *redisd.Req
+		}
+		blocks := map[string]*blk{}
+		for _, r := range glog {
+			if r.Txn == 0 {
+				continue
+			}
+			id := fmt.Sprintf("%d/%d", r.Node, r.Txn)
+			b := blocks[id]
+			if b == nil {
+				b = &blk{node: r.Node, slot: -1}
+				blocks[id] = b
+			}
+			if r.Name() == "exec" {
+				b.exec = r
+				continue
+			}
+			ks, ok := redisd.CommandKeys(r.Argv)
+			if !ok {
+				continue
+			}
+			for _, k := range ks {
+				sl := ref.HashSlot(k)
+				if b.slot == -1 {
+					b.slot = sl
+				} else if sl != b.slot {
+					res = mc.Violation("a transaction sent to the cluster addresses more than one slot", "C18:multi-slot-block:"+shape, describe())
+					return
+				}
+			}
+		}
+		for _, b := range blocks {
+			if b.slot >= 0 && cl.Owner(b.slot) != b.node {
+				res = mc.Violation("a transaction was sent to a node that does not own its slot", "C18:wrong-node:"+shape, describe())
+				return
+			}
+			if b.exec != nil && b.exec.Failed {
+				res = mc.Violation("the cluster rejected a transaction the replay sent", "C18:block-rejected:"+shape, describe())
+				return
+			}
+		}
+		if boot.err != nil {
+			res = mc.Violation("a snapshot of single-key entries was refused", "C18:single-slot-refused:"+shape, describe())
+			return
+		}
+		for i, k := range names {
+			want := k
+			if scn.HashTag {
+				want = strings.Replace(strings.Replace(k, "{", "", 1), "}", "", 1)
+			}
+			v := nodeOf(want).Get(0, want)
+			if v == nil || string(v.Str) != fmt.Sprintf("v%d", i) {
+				res = mc.Violation("a snapshot key is not held by the owner of its slot after the replay", "C18:snapshot-key-missing:"+shape, describe())
+				return
+			}
+		}
+		var lines []string
+		for _, r := range glog {
+			if r.Txn != 0 {
+				lines = append(lines, fmt.Sprintf("n%d %s", r.Node, maskVolatile(r.String())))
+			}
+		}
+		res = mc.OK(mc.Hash(lines...), true, len(names))
+	})
+	if msg != "" {
+		return mc.Result{Verdict: "machinery", Clause: "bubble: " + msg}
+	}
+	return res
+}
+
 func runC18(t *testing.T, rep *mc.Reporter) {
 	shard, nshards := mc.ShardOf()
 	tier := mc.Tier()
@@ -336,6 +475,10 @@ func runC18(t *testing.T, rep *mc.Reporter) {
 		var scn c18Scenario
 		if err := json.Unmarshal(rp.Scenario, &scn); err != nil {
 			rep.Machinery("bad replay scenario: "+err.Error(), nil)
+			return
+		}
+		if scn.Snap {
+			rep.Exec(scn, nil, c18SnapExec(t, scn))
 			return
 		}
 		rep.Exec(scn, nil, c18Exec(t, scn))
@@ -357,7 +500,13 @@ func runC18(t *testing.T, rep *mc.Reporter) {
 			}
 		}
 	}
+	// VERIF_FAMILY restricts the run to one family: other checks include families of this harness
+	// as parts (C11 includes "snap": the slot a snapshot unit is given is a key-to-slot computation)
+	fam := os.Getenv("VERIF_FAMILY")
 	idx := 0
+	if fam != "" {
+		units = nil
+	}
 	for _, u := range units {
 		for _, m := range modes {
 			idx++
@@ -376,6 +525,37 @@ func runC18(t *testing.T, rep *mc.Reporter) {
 			rep.Exec(scn, nil, res)
 		}
 	}
+	// ---- snapshot lane: entries of a snapshot are replay units too; with replay.replaceHashTag the
+	// key that is written differs from the key in the snapshot
+	snapKeys := [][]string{{"user{tag}", "{t}x"}, {"order{42", "a}b{c}"}, {"plain", "{}{t}"}}
+	if tier == "thorough" {
+		snapKeys = append(snapKeys, []string{"{{t}}", "}{t}"}, []string{"t}{", "y{t}"}, []string{"{t}{u}", "{u}z"})
+	}
+	if fam != "" && fam != "snap" {
+		snapKeys = nil
+	}
+	for _, ks := range snapKeys {
+		for _, m := range modes {
+			for _, ht := range []bool{false, true} {
+				for _, rs := range []bool{true, false} {
+					idx++
+					if idx%nshards != shard || budget.Expired() {
+						continue
+					}
+					scn := c18Scenario{Unit: c18Unit{"snapshot", ks}, Cfg: m, Snap: true, HashTag: ht, Restore: rs}
+					rep.Scenario()
+					res := c18SnapExec(t, scn)
+					if res.Verdict == "violation" {
+						r2 := c18SnapExec(t, scn)
+						if r2.Verdict != res.Verdict || r2.Sig != res.Sig {
+							res = mc.Result{Verdict: "machinery", Clause: fmt.Sprintf("violation not reproducible: %s vs %s/%s", res.Sig, r2.Verdict, r2.Sig)}
+						}
+					}
+					rep.Exec(scn, nil, res)
+				}
+			}
+		}
+	}
 	// ---- preemption family: every wake-up statement of syncer/bisync.go (close, send, go, Unlock,
 	// Done, Close) is a point at which the running goroutine may step aside for the one it woke;
 	// all placements of up to `pbound` preemptions, for refused and accepted units in every mode
@@ -385,6 +565,9 @@ func runC18(t *testing.T, rep *mc.Reporter) {
 	if tier == "thorough" {
 		pbound = 2
 		pkinds = []string{"set", "mset", "eval", "txn", "txnflt"}
+	}
+	if fam != "" && fam != "preempt" {
+		pkinds = nil
 	}
 	for _, kind := range pkinds {
 		for _, a := range ppool {
